@@ -38,6 +38,13 @@ func init() {
 		"verifConcrete": inVerifConcrete,
 		"verifSymbolic": func(w *Worker, fr *frame, fn *ssa.Function, args []Value) Value { return true },
 		"verifItoa":     inItoa,
+		"verifDecodeRune": func(w *Worker, fr *frame, fn *ssa.Function, args []Value) Value {
+			f := w.sh.pkgs["unicode/utf8"].Func("DecodeRuneInString")
+			if real, _ := args[1].(bool); real {
+				return w.callBody(fr, f, []Value{args[0]})
+			}
+			return w.call(fr, 0, f, []Value{args[0]})
+		},
 		"verifCutErrors": func(w *Worker, fr *frame, fn *ssa.Function, args []Value) Value {
 			w.p.cutOff = !args[0].(bool)
 			return nil
